@@ -103,6 +103,7 @@ func (q *queue) addPacket(packet *PacketData) {
 	packet.Seq = q.sequenceTop
 	q.content[q.sequenceTop] = packet
 	q.sequenceTop = (q.sequenceTop + 1) % q.cfg.s
+	vtrace(q.timeoutManager, "add", int(packet.Seq), int(q.sequenceTop))
 }
 
 // resend resends the current contents of the queue. It allows some time for the
@@ -111,6 +112,7 @@ func (q *queue) addPacket(packet *PacketData) {
 func (q *queue) resend() error {
 	if time.Since(q.lastResend) < q.timeoutManager.GetHandshakeTimeout() {
 		q.cfg.log.Tracef("Resent the queue recently.")
+		vtrace(q.timeoutManager, "resendSkip")
 
 		return nil
 	}
@@ -135,6 +137,7 @@ func (q *queue) resend() error {
 
 	// Prepare the queue for awaiting the resend catch up.
 	q.syncer.initResendUpTo(top)
+	vtrace(q.timeoutManager, "resend", int(base), int(top))
 
 	q.cfg.log.Debugf("Resending the packets queue")
 
@@ -151,7 +154,9 @@ func (q *queue) resend() error {
 	}
 
 	// Then wait until we know that both parties are in sync.
+	vtrace(q.timeoutManager, "syncWait")
 	q.syncer.waitForSync()
+	vtrace(q.timeoutManager, "syncDone")
 
 	return nil
 }
@@ -164,6 +169,7 @@ func (q *queue) processACK(seq uint8) bool {
 	if q.size() == 0 {
 		q.cfg.log.Tracef("Received ack %d, but queue is empty. "+
 			"Ignoring.", seq)
+		vtrace(q.timeoutManager, "ackEmpty", int(seq))
 
 		return false
 	}
@@ -181,6 +187,7 @@ func (q *queue) processACK(seq uint8) bool {
 		q.cfg.log.Tracef("Received correct ack %d", seq)
 
 		q.sequenceBase = (q.sequenceBase + 1) % q.cfg.s
+		vtrace(q.timeoutManager, "ack", int(seq), 1, int(q.sequenceBase))
 
 		// We did receive an ACK.
 		return true
@@ -204,12 +211,14 @@ func (q *queue) processACK(seq uint8) bool {
 			seq)
 
 		q.sequenceBase = (seq + 1) % q.cfg.s
+		vtrace(q.timeoutManager, "ack", int(seq), 1, int(q.sequenceBase))
 
 		// We did receive an ACK.
 		return true
 	}
 
 	// We didn't receive a valid ACK for anything in our queue.
+	vtrace(q.timeoutManager, "ack", int(seq), 0, int(q.sequenceBase))
 	return false
 }
 
@@ -239,6 +248,7 @@ func (q *queue) processNACK(seq uint8) (bool, bool) {
 	// trigger a resend.
 	if seq == q.sequenceTop {
 		q.sequenceBase = q.sequenceTop
+		vtrace(q.timeoutManager, "nack", int(seq), 0, 1, int(q.sequenceBase))
 
 		return false, true
 	}
@@ -247,6 +257,7 @@ func (q *queue) processNACK(seq uint8) (bool, bool) {
 	if !containsSequence(q.sequenceBase, q.sequenceTop, seq) {
 		q.cfg.log.Tracef("NACK seq %d is not in the queue. Ignoring.",
 			seq)
+		vtrace(q.timeoutManager, "nack", int(seq), 0, 0, int(q.sequenceBase))
 
 		return false, false
 	}
@@ -259,6 +270,7 @@ func (q *queue) processNACK(seq uint8) (bool, bool) {
 	}
 
 	q.sequenceBase = seq
+	vtrace(q.timeoutManager, "nack", int(seq), 1, b2i(bumped), int(q.sequenceBase))
 
 	return true, bumped
 }
